@@ -71,3 +71,6 @@ open Pandora.C11
 #print axioms Pandora.C11KernelsGlue.costVolumeAggregation_generated_model
 #print axioms Pandora.C11KernelsGlue.costVolumeAggregation_generated_spec
 #print axioms Pandora.C11KernelsGlue.costVolumeAggregation_generated_plane_independent
+#print axioms Pandora.C11KernelsGlue.nanReplacement_generated_eq
+#print axioms Pandora.C11KernelsGlue.shiftMask_generated_width
+#print axioms Pandora.C11KernelsGlue.cmaxUpdate_generated_eq
